@@ -131,13 +131,18 @@ def check_accessors(ctx, t, names, where, dir_first=True, write=True):
                 # a stored name may also equal another column's accessor; the exact stored-name match wins
                 return ctx.fail(f"{where}/stored-name-lookup-not-first-occurrence", f"names {names}: t[{nm!r}] is not column {first}")
     # repr dot row
-    if ncols <= 10 and len(t) >= 1:
+    if len(t) >= 1:
         r = repr(t)
         lines = r.split("\n")
+        # a repr shows the first five and the last five columns around '...' when the table has more than ten
+        shown = list(range(ncols)) if ncols <= 10 else list(range(5)) + [None] + list(range(ncols - 5, ncols))
         dot = [ln.split() for ln in lines if ln.strip() and all(tk.startswith(".") and len(tk) > 1 for tk in ln.split())]
-        dot = [d for d in dot if len(d) == ncols and all(re.fullmatch(r"\.[A-Za-z_][A-Za-z0-9_]*", tk) for tk in d)]
+        dot = [d for d in dot if len(d) == len(shown) and all((tk == "..." and p is None) or (p is not None and re.fullmatch(r"\.[A-Za-z_][A-Za-z0-9_]*", tk))
+                                                              for tk, p in zip(d, shown))]
         if dot:
-            for i, tk in enumerate(dot[0]):
+            for i, tk in zip(shown, dot[0]):
+                if i is None:
+                    continue
                 a = tk[1:]
                 if a not in pos_of:
                     return ctx.fail(f"{where}/repr-dot-name-not-advertised", f"names {names}: repr shows {tk} for column {i}; advertised {adv}")
@@ -202,9 +207,14 @@ def run_enum(case, ctx):
 # ---------------------------------------------------------------- random names
 @st.composite
 def names_case(draw, tier="quick"):
-    w = draw(st.integers(1, 12))
-    names = draw(st.lists(st.one_of(V.collision_names, st.text(max_size=8), st.none(),
-                                    st.text(alphabet="aAbB_ 1.$é", max_size=6)), min_size=w, max_size=w))
+    if draw(st.integers(0, 4)) == 0:
+        # wide tables (the repr elides the middle columns) over a few bases, so that repeats straddle the elided part
+        w = draw(st.integers(11, 22))
+        names = draw(st.lists(st.sampled_from(["dup x", "dup_x", "a", "b", "c", "d", "e", "f", "g", None, "h", "i"]), min_size=w, max_size=w))
+    else:
+        w = draw(st.integers(1, 12))
+        names = draw(st.lists(st.one_of(V.collision_names, st.text(max_size=8), st.none(),
+                                        st.text(alphabet="aAbB_ 1.$é", max_size=6)), min_size=w, max_size=w))
     return {"names": names, "dir_first": draw(st.booleans())}
 
 
